@@ -2,6 +2,7 @@ package q
 
 import (
 	"fmt"
+	"math"
 	"reflect"
 	"strconv"
 	"strings"
@@ -74,7 +75,11 @@ func binaryFloats(left, right string) (float64, float64, bool) {
 	floatRight, errRight := strconv.ParseFloat(right, 64)
 
 	// Compare as numbers.
-	if errLeft == nil && errRight == nil {
+	// "NaN" is accepted by ParseFloat but it is not a number we can compare:
+	// it is not less than, equal or greater than anything.
+	isNaN := math.IsNaN(floatLeft) || math.IsNaN(floatRight)
+
+	if errLeft == nil && errRight == nil && !isNaN {
 		return floatLeft, floatRight, true
 	}
 
